@@ -119,6 +119,12 @@ def catalogue():
         pset("Q1", (0.25, 0.25, 0), (-1.75, 0.25, 0), (3.25, -2.75, 0), (0.25, 2.25, 2), (-2.75, -2.75, 2), (1.25, 1.25, 2)),
         pset("Q2", (0.25, 0.25, 0), (1.25, 0.25, 0), (-1.75, -1.75, 0), (2.25, -2.75, 0)),
         pset("Q3", (1.25, 1.25, 2), (-2.75, 0.25, 2), (2.25, -1.75, 2), (0.25, 3.25, 2), (1.25, 1.25, 0.25)),
+        # mesh volumes whose horizontal cross-sections have a hole: a frame (box minus a through box)
+        # and a two-level shape (solid slab below z = 1, frame above)
+        vol("W1", (-3, 3, -3, -1, -1, 3), (-3, 3, 1, 3, -1, 3), (-3, -1, -1, 1, -1, 3), (1, 3, -1, 1, -1, 3)),
+        vol("W2", (-3, 3, -3, 3, -1, 1), (-3, 3, -3, -1, 1, 3), (-3, 3, 1, 3, 1, 3), (-3, -1, -1, 1, 1, 3), (1, 3, -1, 1, 1, 3)),
+        poly("H1", 2, (-0.5, 0.75, -0.5, 0.75)),       # wholly inside the hole
+        poly("H2", 2, (-2, 2, -2, 2)),                 # covers the hole and part of the frame
         # polygons with several connected components of different areas (2,1 at z=0; 1,3,2 at z=2)
         mpoly("M1", 0, (-4, -2, -1, 0), (2, 3, -1, 0)),
         mpoly("M3", 2, (-4, -3, -4, -3), (-2, 1, -4, -3), (2, 4, -4, -3)),
